@@ -132,12 +132,14 @@ CHECKS["C04"] = {
              "each received log must equal the model's edit script exactly: count, order, id, kind, new value, old value, seed flags, change time (exact with write time, else inside the fake clock's "
              "call interval). Plus a bounded-exhaustive layer: every history of up to 4 (Value) / 3 (Collection) calls (5 / 4 thorough) over a compact alphabet (2 ids, values differing in one field, "
              "create-if-absent, CAS failures, invalid / empty masks, write times, deletes with allow-missing) x initial contents {empty, one, many} x equivalence on/off, each observed by four "
-             "subscriptions at once (plain, updates-only, masked, updates-only+masked). non-trivial = history with a remove followed by a re-add, a failing write between successful ones, or an equivalence configured; distinct by (subscriptions, op/outcome sequence)"),
+             "subscriptions at once (plain, updates-only, masked, updates-only+masked); in both layers subscribers also join and leave mid-history. Plus subscriber churn: one writer and 2-6 backpressured "
+             "subscribers that keep joining and leaving (a subscriber that is subscribed for the whole of writes b..e-1 must have exactly one event for each, in order). non-trivial = history with a remove followed by a re-add, a failing write between successful ones, or an equivalence configured; distinct by (subscriptions, op/outcome sequence)"),
     "assumptions": ["one writer at a time; consumers always receive", "with an equivalence the read masks are top-level non-message paths (so the sentinel is never suppressed)"],
     "jobs": [
         rapid_job("value", "./verifh/c04", "TestValueStream", 3000, 20000),
         rapid_job("collection", "./verifh/c04", "TestCollectionStream", 3000, 20000),
         enum_job("exhaustive", "./verifh/c04", "TestStreamExhaustive", shards={Q: 8, T: 16}, timeout={Q: 600, T: 3000}),
+        rapid_job("churn", "./verifh/c04", "TestStreamChurn", 40, 150, shards={Q: 3, T: 8}, timeout={Q: 400, T: 2400}),
     ],
 }
 
@@ -160,7 +162,10 @@ CHECKS["C09"] = {
              "script up to a length bound over 1-2 ids x initial presence, plus rapid-drawn longer scripts over 3 ids; oracle: each delivered change equals an independently computed merge of the "
              "pending changes of its id (ADD.REMOVE cancels, REMOVE.ADD is REPLACE, old values chain), nothing extra, folded view == store, DropExcess hands over the latest message; "
              "(b) API level: lossy Value/Collection Pull with scripted consumer pacing, every write bounded by a 5 s guard, folded view converges after a sentinel; backpressured writer/consumer "
-             "lock-step; one real-time case where a stalled backpressured consumer makes Value.Set return an error after ~5 s. non-trivial = script where >=2 changes of one id were pending "
+             "lock-step; one real-time case where a stalled backpressured consumer makes Value.Set return an error after ~5 s and one where a backpressured Collection subscriber pauses 6.5 s while a "
+             "write waits; 2-3 lossy subscribers side by side; 300-3000 ids written while a (masked) lossy subscriber is stalled; caller-chosen write times that do not move forward; subscriber churn "
+             "(subscribers joining and leaving while 1-2 writers write: with backpressure every successful write a subscriber was subscribed for the whole of reaches it exactly once, without it the latest "
+             "value does). non-trivial = script where >=2 changes of one id were pending "
              "together and a receive fell between sends; distinct by script"),
     "assumptions": ["the 5 s send timeout is observed in real time (accepted window 4-9 s)", "'eventually' is a 5-15 s bounded wait"],
     "jobs": [
@@ -170,6 +175,8 @@ CHECKS["C09"] = {
         rapid_job("lockstep", "./verifh/c09", "TestBackpressureLockstep", 500, 3000, shards_t=4),
         enum_job("send-timeout", "./verifh/c09", "TestBackpressureSendTimeout"),
         enum_job("slow-consumer", "./verifh/c09", "TestBackpressureSlowCollectionConsumer"),
+        rapid_job("many-ids", "./verifh/c09", "TestLossyManyIDs", 12, 60, shards_t=2, timeout={Q: 240, T: 1200}),
+        rapid_job("churn", "./verifh/c09", "TestLossyChurn", 40, 150, shards={Q: 3, T: 8}, timeout={Q: 400, T: 2400}),
     ],
 }
 
@@ -213,6 +220,7 @@ CHECKS["C10"] = {
     "jobs": [
         rapid_job("bus", "./verifh/c10", "TestBusShutdown", 2500, 15000, timeout={Q: 400, T: 2400}),
         rapid_job("bus-stress", "./verifh/c10", "TestBusStress", 400, 3000, timeout={Q: 400, T: 2400}),
+        rapid_job("bus-churn", "./verifh/c10", "TestBusChurn", 40, 150, shards={Q: 4, T: 12}, timeout={Q: 400, T: 2400}),
         rapid_job("resource", "./verifh/c10", "TestResourceShutdown", 1500, 10000, timeout={Q: 400, T: 2400}),
         rapid_job("resource-stress", "./verifh/c10", "TestResourceShutdownStress", 300, 2500, timeout={Q: 400, T: 2400}),
     ],
@@ -256,7 +264,7 @@ CHECKS["C19"] = {
     "assumptions": ["the model clock is a fake ticking clock; the start time must lie within the ticks consumed by the call"],
     "jobs": [
         enum_job("exhaustive", "./verifh/c19", "TestElectricExhaustive", shards={Q: 4, T: 16}, timeout={Q: 600, T: 3000}),
-        rapid_job("sequences", "./verifh/c19", "TestElectricSequences", 4000, 30000),
+        rapid_job("sequences", "./verifh/c19", "TestElectricSequences|TestElectricConfigured", 4000, 30000),
         rapid_job("concurrent", "./verifh/c19", "TestElectricConcurrent", 500, 4000, shards_t=8),
         rapid_job("duels", "./verifh/c19", "TestElectricDuels", 60, 150, shards={Q: 6, T: 12}, timeout={Q: 400, T: 2400}),
     ],
@@ -354,13 +362,16 @@ CHECKS["C14"] = {
              "wrapper -> router -> wrapper -> server: rapid-generated histories of 1-12 RPCs (Update with a random value of the resource type and nil/valid/invalid update mask, Get with a read mask, "
              "0-2 Pull streams with read mask / updates-only). Oracle: Update response == next Get; Get(mask) == projection of Get(); a new Pull starts with the current value unless updates-only; every "
              "stream message equals one of the responses since the last delivered one, in order, and carries the Pull request's name; an update whose response differs from the stream's last value in a "
-             "non-float field (or >=1.0 in a float, >=2s in a time) must arrive while the reader keeps up; a rejected Update leaves Get unchanged. non-trivial = history with >=2 successful updates, >=1 open "
+             "non-float field (or >=1.0 in a float, >=2s in a time) must arrive while the reader keeps up; a rejected Update leaves Get unchanged; a Get (masked or not) does not change what the next Get returns. Plus, per triple, a Pull stream nobody reads "
+             "followed by 5-8 updates (rejected => Get unchanged, accepted => Get returns it), and for the light server stream churn through the full stack (clients opening and cancelling Pull streams "
+             "while another keeps updating: an open stream is brought up to the latest update). non-trivial = history with >=2 successful updates, >=1 open "
              "stream and >=1 masked read; distinct by (server, triple, history)"),
     "assumptions": ["keyed resources (extra scalar request fields such as an id) are listed in the evidence notes and not driven generically", "tolerances in the tree are <= 0.1 for floats and 1s for times",
                     "real-time behaviour (tweens) is left at its zero default"],
     "jobs": [
         rapid_job("triples", "./verifh/c14", "TestTripleSweep", 1500, 8000, shards={"quick": 8, "thorough": 16}, timeout={"quick": 600, "thorough": 3000}),
         rapid_job("stalled-reader", "./verifh/c14", "TestStalledReader", 3, 20, shards={"quick": 1, "thorough": 1}, timeout={"quick": 600, "thorough": 3000}),
+        rapid_job("stream-churn", "./verifh/c14", "TestPullStreamChurn", 30, 120, shards={"quick": 3, "thorough": 8}, timeout={"quick": 600, "thorough": 3000}),
     ],
 }
 
